@@ -26,6 +26,7 @@ import (
 	_ "verif/checks/c14"
 	_ "verif/checks/c15"
 	_ "verif/checks/c16"
+	_ "verif/checks/c17"
 	_ "verif/checks/c18"
 	_ "verif/checks/c19"
 	_ "verif/checks/c20"
